@@ -28,7 +28,7 @@ _cache = {}
 
 
 def shards(tier, seed):
-    per = 150 if tier == 'quick' else 1300
+    per = 150 if tier == 'quick' else 5000
     budget = 40 if tier == 'quick' else 500
     out = [{'kind': 'random', 'count': per, 'budget_s': budget, 'max_g': 12 if tier == 'quick' else 24} for _ in range(15)]
     out.append({'kind': 'tables', 'budget_s': budget})
@@ -36,6 +36,8 @@ def shards(tier, seed):
 
 
 def _ref(circuit):
+    if len(circuit.inputs) > 10 or circuit.size > 400:
+        raise KeyError('too large for the exhaustive oracle')
     net = refsem.net_of(circuit)
     key = (tuple(net.inputs), tuple(sorted(net.gates.items())))
     r = _cache.get(key)
